@@ -338,7 +338,12 @@ func checkC13Conc(c C13ConcCase) (vs []*Violation) {
 				w := httptest.NewRecorder()
 				if c.Reads && g%2 == 1 {
 					doc := []byte(`{"id":` + strconv.Itoa(id) + `,"pad":"` + string(payload(500+g*11, g)) + `"}`)
-					q := model.ReqSpec{Method: "POST", Path: "/r/" + strconv.Itoa(id), Body: string(compressBody("gzip", doc, 1)), Headers: []model.H{{K: "Content-Type", V: "application/json"}, {K: "Content-Encoding", V: "gzip"}}}
+					// every request spells its Content-Type differently (parameters are legal and must not matter)
+					ctype := "application/json"
+					if r%2 == 1 {
+						ctype = "application/json; charset=utf-8; v=" + strconv.Itoa(id)
+					}
+					q := model.ReqSpec{Method: "POST", Path: "/r/" + strconv.Itoa(id), Body: string(compressBody("gzip", doc, 1)), Headers: []model.H{{K: "Content-Type", V: ctype}, {K: "Content-Encoding", V: "gzip"}}}
 					ct.ServeHTTP(w, harness.NewHTTPRequest(q, "c"))
 					if w.Code != 204 {
 						body, _ := decodeBody(w.Header().Get("Content-Encoding"), w.Body.Bytes())
@@ -362,8 +367,8 @@ func checkC13Conc(c C13ConcCase) (vs []*Violation) {
 	case <-time.After(90 * time.Second):
 		buf := make([]byte, 1<<20)
 		buf = buf[:runtime.Stack(buf, true)]
-		if blockedInRelease(string(buf)) {
-			addV(viol("", "workers are parked in a channel send inside Release*: releasing a compressor blocks (N=%d, capacity=%d)", c.N, c.Capacity))
+		if blockedInProvider(string(buf)) {
+			addV(viol("", "workers are parked in a channel operation inside the provider's Acquire*/Release*: acquiring or releasing a compressor blocks (N=%d, capacity=%d)", c.N, c.Capacity))
 		} else {
 			inconclusive("C13", "TestC13Conc", "workers did not finish within 90s and no goroutine is parked in Release*")
 		}
@@ -394,6 +399,16 @@ func checkC13Conc(c C13ConcCase) (vs []*Violation) {
 	return vs
 }
 
+// blockedInProvider: a goroutine parked in a channel operation inside Acquire* or Release*.
+func blockedInProvider(dump string) bool {
+	for _, g := range strings.Split(dump, "\n\n") {
+		if (strings.Contains(g, "chan send") || strings.Contains(g, "chan receive")) && strings.Contains(g, "BoundedCachedCompressors") {
+			return true
+		}
+	}
+	return false
+}
+
 func blockedInRelease(dump string) bool {
 	for _, g := range strings.Split(dump, "\n\n") {
 		if strings.Contains(g, "chan send") && (strings.Contains(g, "ReleaseGzipWriter") || strings.Contains(g, "ReleaseZlibWriter") || strings.Contains(g, "ReleaseGzipReader")) {
@@ -422,6 +437,9 @@ type C13ReleaseCase struct {
 	Free     int    `json:"free"` // free slots when the releases start
 	Kind     string `json:"kind"` // gzipw, zlibw, gzipr
 	Rounds   int    `json:"rounds"`
+	// Mode "acquire": G goroutines acquire at the same moment from a cache that holds Free objects
+	// (Free is then the number of cached objects, not of free slots); default: simultaneous releases
+	Mode string `json:"mode,omitempty"`
 }
 
 func genC13Release(t *rapid.T) C13ReleaseCase {
@@ -430,6 +448,9 @@ func genC13Release(t *rapid.T) C13ReleaseCase {
 	c.Free = rapid.IntRange(0, min(c.Capacity, 2)).Draw(t, "free")
 	c.Kind = rapid.SampledFrom([]string{"gzipw", "zlibw", "gzipr"}).Draw(t, "kind")
 	c.Rounds = rapid.IntRange(50, 400).Draw(t, "rounds")
+	if rapid.IntRange(0, 2).Draw(t, "mode") == 0 {
+		c.Mode = "acquire"
+	}
 	return c
 }
 
@@ -457,6 +478,76 @@ func checkC13Release(c C13ReleaseCase) (vs []*Violation) {
 		}
 	}
 	contended := 0
+	if c.Mode == "acquire" {
+		for r := 0; r < c.Rounds; r++ {
+			// leave exactly Free objects in the cache, then acquire G at the same moment
+			var held []interface{}
+			for i := 0; i < c.Capacity; i++ {
+				held = append(held, acquire())
+			}
+			for i := 0; i < c.Free && i < len(held); i++ {
+				release(held[i])
+			}
+			var start, wg sync.WaitGroup
+			start.Add(1)
+			done := make(chan struct{})
+			got := make([]interface{}, c.G)
+			for g := 0; g < c.G; g++ {
+				wg.Add(1)
+				go func(g int) {
+					defer wg.Done()
+					start.Wait()
+					got[g] = acquire()
+				}(g)
+			}
+			start.Done()
+			go func() { wg.Wait(); close(done) }()
+			if c.G > c.Free {
+				contended++
+			}
+			select {
+			case <-done:
+			case <-time.After(20 * time.Second):
+				buf := make([]byte, 1<<20)
+				buf = buf[:runtime.Stack(buf, true)]
+				if blockedInProvider(string(buf)) {
+					vs = append(vs, viol("", "round %d: %d goroutines acquired a %s at the same moment from a cache of capacity %d holding %d objects; at least one is parked in the channel receive inside Acquire*", r, c.G, c.Kind, c.Capacity, c.Free))
+				} else {
+					inconclusive("C13", "TestC13Release", "concurrent acquires did not return within 20s and no goroutine is parked in Acquire*")
+				}
+				for i := 0; i < c.G; i++ { // unblock the stuck goroutines
+					switch c.Kind {
+					case "gzipw":
+						b.ReleaseGzipWriter(restful.NewSyncPoolCompessors().AcquireGzipWriter())
+					case "zlibw":
+						b.ReleaseZlibWriter(restful.NewSyncPoolCompessors().AcquireZlibWriter())
+					default:
+						b.ReleaseGzipReader(new(gzip.Reader))
+					}
+				}
+				<-done
+				st.Case(c, true, "kind_"+c.Kind, "mode_acquire", "blocked")
+				return vs
+			}
+			// exclusivity: no object handed out twice
+			seen := map[interface{}]bool{}
+			for _, o := range got {
+				if seen[o] {
+					vs = append(vs, viol("", "round %d: the same %s was handed out to two simultaneous acquirers", r, c.Kind))
+				}
+				seen[o] = true
+			}
+			for _, o := range got {
+				release(o)
+			}
+			if len(vs) > 0 {
+				break
+			}
+		}
+		st.Label("acquire_rounds", int64(c.Rounds))
+		st.Case(c, c.G > c.Free, "kind_"+c.Kind, "mode_acquire")
+		return vs
+	}
 	for r := 0; r < c.Rounds; r++ {
 		// drain the cache completely, then give back all but Free objects
 		var objs []interface{}
